@@ -150,6 +150,9 @@ func (v *Verifier) applyCall(st *State, tg *callTarget, bind ssa.Value, b *ssa.B
 		}
 		v.safe(st, "nil:funcvalue", tNot(tEq(tg.fnTerm, tNilF)), in)
 		con, cpkg := v.funcTypeContract(tg.sig)
+		if con == nil {
+			con, cpkg = v.fieldFuncContract(tg.call)
+		}
 		if con != nil {
 			args := append([]*Term{tg.fnTerm}, tg.args...)
 			tys := append([]types.Type{tg.sig}, tg.argTys...)
@@ -333,6 +336,9 @@ func (v *Verifier) funcTypeContract(sig *types.Signature) (*Contract, *types.Pac
 		if pk == nil {
 			continue
 		}
+		if strings.Contains(c.Name, ".") {
+			continue // field-keyed contract
+		}
 		obj := pk.Scope().Lookup(c.Name)
 		if obj == nil {
 			continue
@@ -341,6 +347,38 @@ func (v *Verifier) funcTypeContract(sig *types.Signature) (*Contract, *types.Pac
 			if types.Identical(stripRecv(sig), s2) {
 				return c, pk
 			}
+		}
+	}
+	return nil, nil
+}
+
+// fieldFuncContract: a call through a func-typed struct field (x.f(...)) may have a contract keyed by the field,
+// written as `functype Struct.field(self, params...)` (used for generic callback fields).
+func (v *Verifier) fieldFuncContract(c *ssa.CallCommon) (*Contract, *types.Package) {
+	ld, ok := c.Value.(*ssa.UnOp)
+	if !ok {
+		return nil, nil
+	}
+	fa, ok := ld.X.(*ssa.FieldAddr)
+	if !ok {
+		return nil, nil
+	}
+	pt, ok := fa.X.Type().Underlying().(*types.Pointer)
+	if !ok {
+		return nil, nil
+	}
+	n, ok := types.Unalias(pt.Elem()).(*types.Named)
+	if !ok {
+		return nil, nil
+	}
+	st, ok := n.Underlying().(*types.Struct)
+	if !ok {
+		return nil, nil
+	}
+	key := n.Obj().Name() + "." + st.Field(fa.Field).Name()
+	for _, ct := range v.C.FuncTypes {
+		if ct.Name == key {
+			return ct, v.typesPkg(ct.Pkg)
 		}
 	}
 	return nil, nil
@@ -862,6 +900,8 @@ func (v *Verifier) frameCheckLoc(st *State, key string, addr *Term, in ssa.Instr
 		case "userdata":
 			if !strings.HasPrefix(key, "map") {
 				alts = append(alts, tNot(v.internalField(addr, key)))
+				v.D.declFun("zz_userptr", []string{"Ptr"}, "Bool")
+				alts = append(alts, mk("Bool", "zz_userptr", addr))
 			}
 		case "anyelems":
 			if m.key == key {
@@ -1723,8 +1763,12 @@ func (v *Verifier) finishPath(st *State, rs []*Term) {
 		v.emit(st, "post", "fresh_result", []string{"C07", "C08"}, g, "result is a freshly acquired object (owned by the caller)", "")
 	}
 	for _, x := range v.extraPosts {
+		xenv := *env
+		if pk := v.typesPkg(x.Pkg); pk != nil {
+			xenv.pkg = pk
+		}
 		for _, en := range x.Ensures {
-			g, err := env.evalBool(en.Expr)
+			g, err := xenv.evalBool(en.Expr)
 			if err != nil {
 				v.errorf("impl ensures %s: %v", en.Label, err)
 				g = tFalse
